@@ -102,7 +102,7 @@ def oracle(ctx, name, script, r):
             bad.append(("oracle/order", "direction %d: calls issued in the order %r were entered in the order %r" % (d, ids, ent)))
         # head of line: when c is entered, every earlier call that had been completely received is finished
         seen_q, done = set(), set()
-        for e, c in ev:
+        for e, c in (ev if ent == sorted(set(ent)) else []):      # (an order violation is reported as such)
             if e == "queued":
                 seen_q.add(c)
             elif e in ("failed", "entered"):
